@@ -191,13 +191,13 @@ func raceAPI(t *testing.T, seed uint64) rt.Result {
 
 func TestC10Race(t *testing.T) {
 	c := rt.Get()
-	n := c.N(1600, 40000)
+	n := c.N(3200, 80000)
 	for i := 0; i < n; i++ {
 		seed := uint64(i)*11400714819323198485 + c.Seed
 		hook := []int{hz.HookVSleep, hz.HookVSleep, hz.HookOff}[i%3]
 		runCase(t, "sessions", i, map[string]any{"seed": seed, "hook": hook}, func(t *testing.T) rt.Result { return raceSessions(t, seed, hook) })
 	}
-	m := c.N(800, 20000)
+	m := c.N(1600, 40000)
 	for i := 0; i < m; i++ {
 		seed := uint64(i)*14029467366897019727 + c.Seed
 		runCase(t, "api", i, map[string]any{"seed": seed}, func(t *testing.T) rt.Result { return raceAPI(t, seed) })
